@@ -221,21 +221,26 @@ class Ternary(ast.NodeTransformer):
 TRANSFORMERS = {'tempvar': TempVar, 'comp2loop': Comp2Loop, 'ternary': Ternary, 'unelse': UnElse, 'npfunc': NpFunc, 'demorgan': DeMorgan, 'unparse': None, 'swapif': SwapIf, 'flipcmp': FlipCmp, 'augexpand': AugExpand, 'notnot': NotNot}
 
 
-def overrides(kind, repo=None):
-    """{relative path: new source} for one kind of rewrite of the current tree"""
+def overrides(kind, repo=None, sources=None):
+    """{relative path: new source} for one kind of rewrite of the current tree (`sources`: {relative path: text} that
+    replaces the file content first - a seeded change on which the rewrite is applied)"""
     repo = repo or REPO
-    out = {}
+    sources = sources or {}
+    out = {k: v for k, v in sources.items() if k not in FILES}
     if kind == 'rename':
         from . import alpharename
         alpharename.REPO = repo
         for f in FILES:
-            src, new, n = alpharename.rename_file(f, 'alpha')
-            if new != src:
+            src, new, n = alpharename.rename_file(f, 'alpha', sources.get(f))
+            if new != src or f in sources:
                 out[f] = new
         return out
     for f in FILES:
-        with open(os.path.join(repo, f)) as fh:
-            src = fh.read()
+        if f in sources:
+            src = sources[f]
+        else:
+            with open(os.path.join(repo, f)) as fh:
+                src = fh.read()
         tree = ast.parse(src)
         tr = TRANSFORMERS[kind]
         if tr is not None:
